@@ -81,6 +81,10 @@ pub enum SinkKind {
     Cursor,
     BufWriter,
     UsingEncoded,
+    /// KeyedVec::to_keyed_vec(key) with the key stripped again
+    KeyedVec,
+    /// Joiner::and on a non-empty vector, prefix stripped
+    Joiner,
 }
 
 #[derive(Clone, Debug, PartialEq, Eq, Serialize, Deserialize)]
